@@ -186,12 +186,15 @@ package compactindexsized
 //@   ensures result1 == nil ==> result0 != nil && fresh(result0) && result0.Entries != nil && db.Header.ValueSize <= 252
 //@   ensures result1 == nil ==> result0.OffsetWidth == uint8(db.Header.ValueSize) && int(result0.Stride) == 3 + int(db.Header.ValueSize)
 //@   ensures result1 == nil ==> result0.HashLen == fbyte(db.Stream, db.headerSize + int64(i)*16 + 8)
+//@   ensures result1 == nil ==> result0.HashLen == 3
 //@   ensures result1 != nil ==> result1 != ErrNotFound
 
 //@ func (*DB) LookupBucket
 //@   mode int
 //@   requires validDB(db)
 //@   ensures result1 != nil ==> result1 != ErrNotFound
+//@   ensures result1 == nil ==> result0 != nil && fresh(result0) && result0.Entries != nil && result0.HashLen == 3
+//@   ensures result1 == nil ==> result0.OffsetWidth == uint8(db.Header.ValueSize) && int(result0.Stride) == 3 + int(db.Header.ValueSize) && db.Header.ValueSize <= 252
 
 // ---- builder ----
 
@@ -221,3 +224,42 @@ package compactindexsized
 //@   requires forall k int :: 0 <= k && k < len(b.buckets) ==> b.buckets[k].writer != nil && b.buckets[k].valueSize == uint(b.Header.ValueSize)
 //@   modifies all
 //@   ensures result == nil ==> len(key) <= 65535 && len(value) <= int(b.Header.ValueSize)
+
+// ==== added section: eytzinger layout (builder side) and the top-level query ====
+// sz, lo, rank and the lemmas szNonneg, ancDisjoint, szStep, szRoot, loRange, eytzOrder, rankRange, eytzBST are in
+// /verif/theories/heap_tree.vcl: rank(n, j) = lo(n, j) + sz(n, 2j) is the in-order rank of node j of the implicit tree
+// with n nodes. Lemma eytzBST: if the input is strictly ascending, the keys H(j) = in[rank(n, j)] that eytzinger stores
+// satisfy anc(j, 2k) ==> H(j) < H(k) and anc(j, 2k+1) ==> H(j) > H(k), the two order hypotheses of searchEytzinger.
+
+// eytzinger(in, out, i, k) copies the next sz(len(in), k) elements of `in`, starting at i, into the subtree rooted at k:
+// node j of that subtree receives the element of in-order rank rank(n, j); all other nodes keep their value.
+//@ func eytzinger
+//@   mode int
+//@   requires k >= 1 && 0 <= i && i + sz(len(in), k) <= len(in) && len(in) <= len(out) && len(in) <= 2305843009213693952
+//@   requires i == lo(len(in), k) && ref(in) != ref(out)
+//@   modifies out
+//@   ensures result == i + sz(len(in), k)
+//@   ensures forall j int :: 1 <= j && j <= len(in) && anc(j, k) ==> out[j-1] == in[rank(len(in), j)]
+//@   ensures forall j int :: 1 <= j && j <= len(out) && !anc(j, k) ==> out[j-1] == old(out[j-1])
+//@   use szNonneg(len(in), 2*k) && szNonneg(len(in), 2*k+1) && unfold(sz(len(in), k))
+//@   use unfold(lo(len(in), 2*k)) && unfold(lo(len(in), 2*k+1)) && ancDisjoint(k, k) && unfold(anc(k, k))
+//@   use forall j int :: j > k ==> ancSplit(j, k)
+//@   use forall j int :: ancBelow(j, k) && ancBelow(j, 2*k) && ancBelow(j, 2*k+1) && ancDisjoint(j, k)
+
+// sort.Slice receives the comparator as a function value (not modelled by vcgo: heaps havoced), so only the safety of
+// the layout step is established here (the eytzinger precondition 0 + sz(n, 1) <= n by lemma szRoot).
+//@ func sortWithCompare
+//@   mode int
+//@   requires compare != nil && len(a) <= 2305843009213693952
+//@   modifies a
+//@   use szRoot(len(a)) && unfold(lo(len(a), 1))
+
+// Top-level query. No precondition beyond a handle returned by Open. The call bucket.Lookup(key) cannot discharge the
+// preconditions of (*Bucket).Lookup above: NumEntries <= 2^24 is not checked by GetBucket (it is not needed for safety:
+// searchEytzinger only needs max <= 2^40), and the order hypotheses speak about the entries stored in the file.
+// In deprecated/compactindex{,36}/contracts_verif.go the same three functions are verified in the stronger form
+// "soundness unconditionally, completeness under the order hypotheses" (hypotheses moved from `requires` into the
+// antecedent of the ErrNotFound postcondition), with which (*DB).Lookup verifies completely.
+//@ func (*DB) Lookup
+//@   mode int
+//@   requires validDB(db)
